@@ -14,7 +14,7 @@ def set_(xs):
 
 
 def cgt_cfg(secs='SecSeqA', dayset=1, buy=(0, 1, 2), sell=(0, 1, 2), qden=1, splits=(), maxsplits=0,
-            events=(), maxevents=0, grid=1, maxcells=0, timings=('"end"',), covered_only=False):
+            events=(), maxevents=0, grid=1, maxcells=0, timings=('"end"',), covered_only=False, cheap=0):
     return f'''SPECIFICATION MCSpec
 CONSTANTS
   SecSeq <- {secs}
@@ -31,6 +31,7 @@ CONSTANTS
   MaxEvents = {maxevents}
   DistGrid = {grid}
   MaxCells = {maxcells}
+  CheapDay = {cheap}
   CoveredOnly = {'TRUE' if covered_only else 'FALSE'}
   Emit = TRUE
 INVARIANTS
@@ -77,6 +78,9 @@ FAMILIES = {
     # capital returns / accumulations at every position (one event cell), admissible apportionments on a grid of halves
     'events_q': dict(cfg=dict(dayset=3, events=(1, 2, 3, 4, 5), maxevents=1, grid=2, maxcells=5), variants='dividends',
                      bases=1, obs=True),
+    # a cheap lot (1 a share) next to dear ones and a large capital return: per-lot apportionment by share count
+    'events_cheap_q': dict(cfg=dict(dayset=3, buy=(0, 1, 2), sell=(0, 1, 2), events=(5, 6), maxevents=1, grid=2, maxcells=5, cheap=1),
+                           variants='none', bases=1, obs=True),
     'events_t': dict(cfg=dict(dayset=8, buy=(0, 1, 2), sell=(0, 1), events=(1, 2, 3, 4, 5), maxevents=2, grid=2, maxcells=4),
                      variants='dividends', bases=1, obs=True),
     'events_split_t': dict(cfg=dict(dayset=3, buy=(0, 1, 2), sell=(0, 1), events=(1, 2, 3), maxevents=1, grid=2,
@@ -288,6 +292,7 @@ CONSTANTS
   MaxEvents = 0
   DistGrid = 1
   MaxCells = {maxcells}
+  CheapDay = 0
   CoveredOnly = FALSE
   Emit = TRUE
   BaseY = {base[0]}
